@@ -52,6 +52,14 @@ UPTIME = (1, 3, 6, 1, 2, 1, 1, 3, 0)
 TRAPOID = (1, 3, 6, 1, 6, 3, 1, 1, 4, 1, 0)
 
 
+def free_port6():
+    s = socket.socket(socket.AF_INET6, socket.SOCK_DGRAM)
+    s.bind(("::1", 0))
+    p = s.getsockname()[1]
+    s.close()
+    return p
+
+
 def free_port():
     s = socket.socket(socket.AF_INET, socket.SOCK_DGRAM)
     s.bind(("127.0.0.1", 0))
@@ -75,11 +83,41 @@ def gen_item(rng, i):
         raw = ber.enc_community_message(1, b"public", pdu)
         cut = rng.randint(1, len(raw) - 1)
         return {"cls": "truncated", "src": src, "data": raw[:cut], "vbs": None, "i": i}
+    if r < 0.93:
+        # a well-formed message of ANOTHER SNMP version (a v1 trap-era message, a v3
+        # message): not for this v2c listener, must not disturb it
+        if rng.random() < 0.6:
+            comm = rng.choice((b"public", b"legacy"))
+            data = ber.enc_community_message(0, comm, dict(pdu, type=ber.PDU_TRAP))
+            if comm == b"public":
+                # same community, other version: the statement does not say whether a
+                # v2c listener hands this on; either way it must not disturb anything
+                return {"cls": "otherversion-samecommunity", "src": src, "data": data, "vbs": None, "i": i}
+        else:
+            data = ber.enc_v3_message({"msg_id": 7, "max_size": 65507, "flags": 0, "sec_model": 3,
+                                        "usm": {"engine_id": b"\x80\x00\x00\x01\x02", "boots": 1, "time": 2, "user": b"u", "auth": b"", "priv": b""},
+                                        "scoped": (b"\x80\x00\x00\x01\x02", b"", pdu)})
+        return {"cls": "otherversion", "src": src, "data": data, "vbs": None, "i": i}
     g = bytes(b for b in (rng.getrandbits(8) for _ in range(rng.choice((1, 2, 7, 40, 200)))) if b != 0x80) or b"\x00"
     return {"cls": "garbage", "src": src, "data": g, "vbs": None, "i": i}
 
 
-def run_sequence(R, items, attempt=0):
+HAS_IPV6 = [None]
+
+
+def have_ipv6():
+    if HAS_IPV6[0] is None:
+        try:
+            s = socket.socket(socket.AF_INET6, socket.SOCK_DGRAM)
+            s.bind(("::1", 0))
+            s.close()
+            HAS_IPV6[0] = True
+        except OSError:
+            HAS_IPV6[0] = False
+    return HAS_IPV6[0]
+
+
+def run_sequence(R, items, attempt=0, v6=False):
     """Returns (problems, stats).  problems: list of (kind, detail)."""
     events = []
     loop = asyncio.new_event_loop()
@@ -88,24 +126,28 @@ def run_sequence(R, items, attempt=0):
     async def callback(trap):
         events.append(("trap", trap))
 
-    port = free_port()
+    port = free_port() if not v6 else free_port6()
     socks = {}
     problems = []
     stats = {"valid": 0, "invalid": 0}
     with warnings.catch_warnings(record=True):
         warnings.simplefilter("always")
         try:
-            register_trap_callback(callback, listen_address="127.0.0.1", port=port, credentials=V2C("public"), loop=loop)
+            register_trap_callback(callback, listen_address="::1" if v6 else "127.0.0.1", port=port, credentials=V2C("public"), loop=loop)
             pause = 0.004 * (1 + 4 * attempt)
             for it in items:
                 s = socks.get(it["src"])
                 if s is None:
-                    s = socket.socket(socket.AF_INET, socket.SOCK_DGRAM)
-                    s.bind((it["src"], 0))
+                    if v6:
+                        s = socket.socket(socket.AF_INET6, socket.SOCK_DGRAM)
+                        s.bind(("::1", 0))
+                    else:
+                        s = socket.socket(socket.AF_INET, socket.SOCK_DGRAM)
+                        s.bind((it["src"], 0))
                     socks[it["src"]] = s
                 it["sport"] = s.getsockname()[1]
                 before = len(events)
-                s.sendto(it["data"], ("127.0.0.1", port))
+                s.sendto(it["data"], ("::1" if v6 else "127.0.0.1", port))
                 # wait for this datagram's event (bounded); invalid ones may be dropped silently
                 rounds = (120 if attempt == 0 else 500) if it["cls"] == "valid" else 6
                 for _ in range(rounds):
@@ -142,6 +184,12 @@ def run_sequence(R, items, attempt=0):
         except Exception as exc:  # noqa: BLE001
             problems.append(("bad-object", "callback got %r (%r)" % (trap, exc)))
             got_ids.append(None)
+    either = {1000 + it["i"] for it in items if it["cls"] == "otherversion-samecommunity"}
+    if either:
+        keep = [(t, r) for t, r in zip(delivered, got_ids) if r not in either]
+        stats["unspecified_deliveries"] = len(delivered) - len(keep)
+        delivered = [t for t, _ in keep]
+        got_ids = [r for _, r in keep]
     want_ids = [1000 + it["i"] for it in expect]
     valid_ids = set(want_ids)
     for rid in got_ids:
@@ -179,7 +227,8 @@ def run_sequence(R, items, attempt=0):
         if got != it["vbs"]:
             problems.append(("bindings", "trap %d delivered with bindings %r, sent %r" % (rid, str(got)[:200], str(it["vbs"])[:200])))
         src = getattr(trap, "source", None)
-        if src is None or (src.address, src.port) != (it["src"], it["sport"]):
+        want_addr = "::1" if v6 else it["src"]
+        if src is None or (src.address, src.port) != (want_addr, it["sport"]):
             problems.append(("source", "Trap.source is %r, datagram came from %s:%d" % (src, it["src"], it["sport"])))
         else:
             stats["source_ok"] = stats.get("source_ok", 0) + 1
@@ -187,7 +236,7 @@ def run_sequence(R, items, attempt=0):
             info = TrapInfo(trap)
             want_vals = {rig.oid_s(o): rig.pythonized(v) for o, v in it["vbs"][2:]}
             view = (info.origin, info.uptime, info.oid, info.values)
-            want_view = (it["src"], rig.pythonized(it["vbs"][0][1]), rig.oid_s(it["vbs"][1][1][1]), want_vals)
+            want_view = (want_addr, rig.pythonized(it["vbs"][0][1]), rig.oid_s(it["vbs"][1][1][1]), want_vals)
             if view != want_view:
                 problems.append(("trapinfo", "TrapInfo view %r, expected %r" % (str(view)[:200], str(want_view)[:200])))
             else:
@@ -213,15 +262,15 @@ def classify(problems, stats):
     return None
 
 
-def run_items(R, items, label):
-    case = {"items": [{"cls": it["cls"], "src": it["src"], "data": "hex:" + it["data"].hex(), "i": it["i"], "vbs": rig.jsonable(it["vbs"])} for it in items]}
-    problems, stats = run_sequence(R, items)
+def run_items(R, items, label, v6=False):
+    case = {"v6": v6, "items": [{"cls": it["cls"], "src": it["src"], "data": "hex:" + it["data"].hex(), "i": it["i"], "vbs": rig.jsonable(it["vbs"])} for it in items]}
+    problems, stats = run_sequence(R, items, v6=v6)
     timing = {"missing"}
     if problems and {k for k, _ in problems} <= timing:
         # replay once (slower pacing) before a missing delivery becomes a verdict
         R.mon["replayed_before_verdict"] += 1
-        problems, stats = run_sequence(R, items, attempt=1)
-    shape = tuple(it["cls"][0] for it in items)
+        problems, stats = run_sequence(R, items, attempt=1, v6=v6)
+    shape = (v6,) + tuple(it["cls"][0] for it in items)
     kinds = tuple(sorted({v[1][0] for it in items if it["vbs"] for v in it["vbs"][2:]}))
     R.case(("c19", shape, kinds), stats["valid"] >= 1, sample={"label": label, "classes": [it["cls"] for it in items], "sources": [it["src"] for it in items], "delivered": stats["valid"] - sum(1 for k, _ in problems if k == "missing")} if R.evaluations % 23 == 0 else None)
     R.mon["datagrams_sent"] += len(items)
@@ -256,11 +305,23 @@ def run(R):
                 others = [a for a in ("127.0.0.1", "127.0.0.2", "127.0.0.3", "127.0.0.4") if a != orig["src"]]
                 twin = dict(orig, src=rng.choice(others))
                 items.insert(rng.randint(items.index(orig) + 1, len(items)), twin)
+        if i % 4 == 0:
+            idx = 900 + i % 50  # its own request-id, distinct from the sequence's
+            first = gen_item(R.rng(i, "first"), idx)
+            tries = 0
+            while not first["cls"].startswith("otherversion") and tries < 60:
+                first = gen_item(R.rng(i, "first", tries), idx)
+                tries += 1
+            if first["cls"].startswith("otherversion"):
+                items.insert(0, first)  # the very first datagram the fresh listener sees
         if not any(it["cls"] == "valid" for it in items):
             items[-1] = gen_item(R.rng(i, "v"), len(items) - 1)
             while items[-1]["cls"] != "valid":
                 items[-1] = gen_item(rng, len(items) - 1)
-        run_items(R, items, "gen")
+        v6 = have_ipv6() and i % 5 == 3
+        if v6:
+            R.mon["ipv6_listener_sequences"] += 1
+        run_items(R, items, "gen", v6=v6)
 
 
 def replay(R, v):
@@ -277,4 +338,4 @@ def replay(R, v):
                     x = tuple(x)
                 vbs.append((tuple(o), (kind, x)))
         items.append({"cls": it["cls"], "src": it["src"], "data": bytes.fromhex(it["data"][4:]), "i": it["i"], "vbs": vbs})
-    run_items(R, items, "replay")
+    run_items(R, items, "replay", v6=bool(v["case"].get("v6")))
